@@ -36,7 +36,8 @@ SubPart == <<Text(<<"s", ":">>), Emit(Id("d")), Emit(Id("o"))>>
 Comps == {"cfor_omit", "partial", "partial_js", "partial_html", "partial_nodata", "layout", "layout2", "layout_js", "nested", "cfor", "cfor_twice", "cfor_redefined",
           "cof_default", "cof_undefined", "cof_defined_default", "blk", "blkown", "blks", "cfor_inloop", "layout_cfor",
           "layout_shared", "layout_sharedloop", "cfor_changed", "partial_nil", "cof_nil", "cfor_timefmt", "partial_timefmt", "blkown_timefmt", "cofdefault_timefmt",
-          "partial_dotdir", "partial_dotdir_html", "reentrant_self", "reentrant_twin"}
+          "partial_dotdir", "partial_dotdir_html", "reentrant_self", "reentrant_twin",
+          "cof_default_twice", "cof_default_then_none", "partial_nildata"}
 CTs == {"none", "html", "js"}
 CT(c) == CASE c = "none" -> EmptyScope [] c = "html" -> [contentType |-> S(<<"t","e","x","t","/","h","t","m","l">>)]
            [] c = "js" -> [contentType |-> S(<<"a","p","p","/","j","a","v","a","s","c","r","i","p","t">>)]
@@ -64,6 +65,14 @@ Compose(c, body) ==
              txt == <<Text(<<"(">>)>> \o body \o <<Emit(IfChain(Id("deep"), <<Emit(Call("partial", <<Str(<<inner>>), Hash(<<"d", "deep">>, <<Str(<<"i", "n">>), Bool(FALSE)>>)>>))>>, <<>>, <<>>, FALSE)),
                       Text(<<"|">>), Emit(Id("d")), Text(<<")">>)>> IN
          [prog |-> <<Emit(Call("partial", <<P(<<"p">>), Hash(<<"d", "deep">>, <<D, Bool(TRUE)>>)>>))>>, parts |-> [x \in {"p", inner} |-> txt], inline |-> <<>>]
+    \* an undefined name used twice: every call renders ITS OWN default block (nothing is stored by the first); without one it is an error
+    [] c = "cof_default_twice" -> [prog |-> <<Emit(CallB("contentOf", <<Str(<<"n">>), DH>>, <<Text(<<"A">>)>> \o body)), Text(<<"|">>),
+                                             Emit(CallB("contentOf", <<Str(<<"n">>), Hash(<<"d">>, <<Str(<<"2">>)>>)>>, <<Text(<<"B">>), Emit(Id("d"))>>))>>, parts |-> EmptyScope,
+                                   inline |-> <<Emit(CallB("blkown", <<DH>>, <<Text(<<"A">>)>> \o body)), Text(<<"|">>), Emit(CallB("blkown", <<Hash(<<"d">>, <<Str(<<"2">>)>>)>>, <<Text(<<"B">>), Emit(Id("d"))>>))>>]
+    [] c = "cof_default_then_none" -> [prog |-> <<Emit(CallB("contentOf", <<Str(<<"n">>), DH>>, body)), Text(<<"|">>), Emit(Call("contentOf", <<Str(<<"n">>)>>))>>, parts |-> EmptyScope, inline |-> <<>>]
+    \* nil in the place of the data: the partial still runs in a scope of its own (what it lets is gone afterwards)
+    [] c = "partial_nildata" -> [prog |-> <<Let("d", D), Let("n", IntL(1)), Emit(Call("partial", <<P(<<"p">>), Id("nil")>>)), Text(<<"|">>), Emit(Id("n")), Emit(IfElse(Id("m"), <<Text(<<"L">>)>>, <<Text(<<"-">>)>>))>>,
+                                 parts |-> [p |-> body \o <<Let("n", IntL(3)), Let("m", IntL(4)), Emit(Id("n"))>>], inline |-> <<>>]
     [] c = "partial_nodata" -> [prog |-> <<Let("d", D), Emit(Call("partial", <<P(<<"p">>)>>))>>, parts |-> [p |-> body], inline |-> <<Let("d", D), Emit(CallB("blkown", <<Hash(<<>>, <<>>)>>, body))>>]
     [] c = "layout"       -> [prog |-> <<Emit(Call("partial", <<P(<<"p">>), Hash(<<"d", "layout">>, <<D, Str(<<"l">>)>>)>>))>>, parts |-> [p |-> body, l |-> Lay], inline |-> <<>>]
     [] c = "layout2"      -> [prog |-> <<Emit(Call("partial", <<P(<<"p">>), Hash(<<"d", "layout">>, <<D, Str(<<"m">>)>>)>>))>>,
